@@ -153,7 +153,8 @@ Proof.
   split; [intros t; rewrite HtB; apply inter_spec_In|].
   split; [apply Nat.eqb_eq; exact Hl|].
   split.
-  { intros m Hm. apply in_app_iff in Hm. destruct Hm; [eapply no_raw_words_spec; eauto|eapply no_raw_words_spec; eauto]. }
+  { intros m Hm. apply in_app_iff in Hm.
+    destruct Hm as [Hm|Hm]; [exact (no_raw_words_spec sa HrA m Hm)|exact (no_raw_words_spec sb HrB m Hm)]. }
   split.
   - intros -> m id tr Hm Hin. destruct (scope_ok_spec _ _ _ _ HsA m id tr Hm Hin) as [n [Hb [Hid [Htr Hsc]]]].
     exists n. cbn [alice_party bob_party p_book p_me p_topics]. repeat (split; [assumption|]).
